@@ -71,6 +71,8 @@ def handleWire (w : WSt) (ws : List String) : Option (WSt × String) :=
   | ["mon_cn", "target", n] => n.toNat?.map fun n => (apiTarget w n, "ok")
   | ["mon_cn", "expect", cls, sid] => sid.toNat?.map fun s => (H2V.Spec.Verdict.expect w cls s, "ok")
   | ["mon_cn", "verdict"] => let (w', vs) := H2V.Spec.Verdict.verdict w; some (w', showViols vs)
+  | ["mon_cn", "panic"] => some (w, showViols H2V.Spec.Verdict.panicked)
+  | ["mon_cn", "polled", sw, pr] => let (w', vs) := H2V.Spec.Verdict.polled w (sw == "1") (pr == "1"); some (w', showViols vs)
   | ["mon_cn", "quiescent"] => some (w, showViols (quiescent w))
   | ["mon_cn", "delivered", sid, what] =>
     match sid.toNat? with
